@@ -129,6 +129,22 @@ class Drive(e2.Gen):
         await self.record(("delete_detached",))
         after_finalize = self.trace[-1][3]
         self.marks["dumps"] = (q, after_startup, after_dispatch, after_finalize)
+        # edit source files: EXTERNAL re-hash results for attached CONFIRMED / MISSING files
+        await self.snapshot()
+        cand = sorted(l for l, st in self.fstate.items()
+                      if st in (FileState.CONFIRMED.value, FileState.MISSING.value)
+                      and not self.detached.get(("file", l), True))
+        if cand:
+            pick = self.subset(cand, 1, 2)
+            hs = []
+            for p in pick:
+                if self.fstate[p] == FileState.MISSING.value:
+                    hs.append((p, self.newhash()))
+                else:
+                    hs.append((p, self.rng.choice([None, self.newhash(), self.newhash()])))
+            pre = self.d
+            await self.record(("update_hashes", "EXTERNAL", tuple(hs)))
+            self.marks["edit"] = (tuple(hs), pre, self.trace[-1][3], self.trace[-1][1])
         return True
 
 
